@@ -34,6 +34,7 @@ class Profile:
         self.p_post = 0.0
         self.p_lazy = 0.0
         self.p_self_merge = 0.03
+        self.p_listen_u = 0.0       # a listener whose callback unlistens an earlier listener
         self.max_sinks = 4
         self.listen_cells = 0.3
         self.weak = 0.0
@@ -271,7 +272,7 @@ class Gen:
             self.add(hr, "R", sl, [s], "router %d %d %s" % (hr, s, sl))
             for _ in range(r.randint(1, 3)):
                 hh = self.new_h()
-                self.add(hh, "S", "int", [s], "route %d %d %d" % (hh, hr, r.randint(0, 4)))
+                self.add(hh, "S", "int", [s], "route %d %d %d" % (hh, hr, r.randint(0, 4)), role="route")
         elif k in ("sloop", "cloop"):
             return self.gen_loop(k)
         else:
@@ -336,6 +337,22 @@ class Gen:
     def gen_listen(self):
         r = self.r
         l = self.next_l
+        if r.random() < self.p.p_listen_u:
+            # victim: an active stream listener; the killer goes on the same stream (or another one)
+            act = [(k, s) for k, (s, a, w) in self.listeners.items()
+                   if a and not w and k not in getattr(self, "victims", set()) and k not in getattr(self, "killers", set())
+                   and s in self.o and self.o[s].kind == "S"]
+            if act:
+                v, s = r.choice(act)
+                tgt = s if (r.random() < 0.7 and self.o[s].alive) else self.pick("S", "int")
+                if tgt is None:
+                    return
+                self.next_l += 1
+                self.emit("listen_u %d %d %d" % (l, tgt, v))
+                self.listeners[l] = (tgt, True, False)
+                self.victims = getattr(self, "victims", set()) | {v}
+                self.killers = getattr(self, "killers", set()) | {l}
+                return
         if r.random() < self.p.listen_cells and self.pick("C", "int") is not None:
             c = self.pick("C", "int")
             if self.o[c].role == "cloop" and self.depth > 0:
@@ -351,6 +368,12 @@ class Gen:
             weak = r.random() < self.p.weak
             self.emit("%s %d %d" % ("listen_weak" if weak else "listen", l, s))
             self.listeners[l] = (s, True, weak)
+
+    def gen_listen_on(self, s):
+        l = self.next_l
+        self.next_l += 1
+        self.emit("listen %d %d" % (l, s))
+        self.listeners[l] = (s, True, False)
 
     # ---- history
     def sinks(self):
@@ -391,6 +414,33 @@ class Gen:
             self.next_k += 1
         if r.random() < p.p_lazy:
             self.gen_lazy()
+        routers = [h for h, i in self.o.items() if i.alive and i.kind == "R"]
+        if routers and r.random() < 0.35:
+            # request a key (again): a stream for this key may be alive, or may have been dropped completely
+            hr = r.choice(routers)
+            src = next(iter(self.o[hr].deps))
+            hh = self.new_h()
+            self.add(hh, "S", "int", [src], "route %d %d %d" % (hh, hr, r.randint(0, 4)), role="route")
+            if r.random() < 0.5:
+                self.gen_listen_on(hh)
+        if routers and r.random() < 0.3 and self.depth == 0:
+            # drop a routed stream completely (handle and listeners), possibly the router handle too
+            routed = [h for h, i in self.o.items() if i.alive and i.role == "route"]
+            if routed:
+                h = r.choice(routed)
+                for l, (s0, a, wk) in list(self.listeners.items()):
+                    if s0 == h and a:
+                        self.listeners[l] = (s0, False, wk)
+                        self.emit("unlisten %d" % l)
+                        self.emit("drop_l %d" % l)
+                self.o[h].alive = False
+                self.emit("drop %d" % h)
+                if r.random() < 0.5:
+                    self.emit("gc")
+            if r.random() < 0.15:
+                hr = r.choice(routers)
+                self.o[hr].alive = False
+                self.emit("drop %d" % hr)
 
     def gen_lazy(self):
         r = self.r
